@@ -24,8 +24,10 @@
 #define INR(off, n, len) ((off) <= (len) && (n) <= (len) - (off))
 #ifdef VERIF_SMALL   /* replay search: ask the verifier for a counterexample on a small buffer */
 #define RD_MAX 48
+#define RD_BUF_MAX 96     /* caller buffers of the clamping / exact block reads */
 #else
 #define RD_MAX VERIF_MAXLEN
+#define RD_BUF_MAX VERIF_MAXLEN
 #endif
 #define RD_OK(r) (__CPROVER_is_fresh(r, sizeof(StringReader)) && (r)->length <= RD_MAX && \
                   __CPROVER_is_fresh((r)->data, (r)->length) && verif_exc == 0 && (r)->length == g_len && (r)->offset == g_off)
@@ -127,7 +129,7 @@ __CPROVER_assigns(verif_exc);
  * cursor beyond the end (after an explicit go()) it must not read outside the buffer (the memcmp stub's precondition is the
  * obligation): it either throws out_of_range or returns false */
 bool StringReader_skip_if(StringReader* self, const void* data, size_t size)
-RD_REQ(self) __CPROVER_requires(size <= VERIF_MAXLEN) __CPROVER_requires(__CPROVER_is_fresh(data, size))
+RD_REQ(self) __CPROVER_requires(size <= RD_BUF_MAX) __CPROVER_requires(__CPROVER_is_fresh(data, size))
 E02(verif_exc == 0 || (verif_exc == EXC_out_of_range && __CPROVER_old(self->offset) > self->length))   /* never throws with the cursor inside */
 E02((verif_exc == 0 && __CPROVER_old(self->offset) > self->length) ==> !__CPROVER_return_value)         /* cursor beyond the end: nothing can match */
 E02((verif_exc == 0 && __CPROVER_return_value) ==> (INR(__CPROVER_old(self->offset), size, self->length) && self->offset == __CPROVER_old(self->offset) + size))
@@ -140,20 +142,20 @@ __CPROVER_assigns(verif_exc, self->offset);
 /* clamping reads into a caller buffer of `size` bytes */
 #define CLAMPN(off, n, len) ((off) >= (len) ? 0 : ((n) <= (len) - (off) ? (n) : (len) - (off)))
 size_t StringReader_pread_buf(const StringReader* self, size_t offset, void* data, size_t size)
-RD_REQ(self) __CPROVER_requires(size <= VERIF_MAXLEN) __CPROVER_requires(__CPROVER_is_fresh(data, size))
+RD_REQ(self) __CPROVER_requires(size <= RD_BUF_MAX) __CPROVER_requires(__CPROVER_is_fresh(data, size))
 E02(verif_exc == 0 && __CPROVER_return_value == CLAMPN(offset, size, self->length))
 E01(__CPROVER_return_value == CLAMPN(offset, size, self->length))
 E01(g_mk < __CPROVER_return_value ==> ((const uint8_t*)data)[g_mk] == self->data[offset + g_mk])
 __CPROVER_assigns(__CPROVER_object_whole(data));
 
 void StringReader_preadx_buf(const StringReader* self, size_t offset, void* data, size_t size)
-RD_REQ(self) __CPROVER_requires(size <= VERIF_MAXLEN) __CPROVER_requires(__CPROVER_is_fresh(data, size))
+RD_REQ(self) __CPROVER_requires(size <= RD_BUF_MAX) __CPROVER_requires(__CPROVER_is_fresh(data, size))
 E02(THROWS_OOR(INR(offset, size, self->length) && offset < self->length))   /* the code also rejects offset == length with size 0 */
 E01(verif_exc == 0 ==> (g_mk < size ==> ((const uint8_t*)data)[g_mk] == self->data[offset + g_mk]))
 __CPROVER_assigns(verif_exc, __CPROVER_object_whole(data));
 
 size_t StringReader_read_buf(StringReader* self, void* data, size_t size, bool advance)
-RD_REQ(self) __CPROVER_requires(size <= VERIF_MAXLEN) __CPROVER_requires(__CPROVER_is_fresh(data, size))
+RD_REQ(self) __CPROVER_requires(size <= RD_BUF_MAX) __CPROVER_requires(__CPROVER_is_fresh(data, size))
 E02(verif_exc == 0 && __CPROVER_return_value == CLAMPN(__CPROVER_old(self->offset), size, self->length))
 E02(__CPROVER_old(self->offset) <= self->length ==> self->offset <= self->length)
 E01(self->offset == __CPROVER_old(self->offset) + (advance ? __CPROVER_return_value : 0))
@@ -161,7 +163,7 @@ E01(g_mk < __CPROVER_return_value ==> ((const uint8_t*)data)[g_mk] == self->data
 __CPROVER_assigns(self->offset, __CPROVER_object_whole(data));
 
 void StringReader_readx_buf(StringReader* self, void* data, size_t size, bool advance)
-RD_REQ(self) __CPROVER_requires(size <= VERIF_MAXLEN) __CPROVER_requires(__CPROVER_is_fresh(data, size))
+RD_REQ(self) __CPROVER_requires(size <= RD_BUF_MAX) __CPROVER_requires(__CPROVER_is_fresh(data, size))
 E02(THROWS_OOR(INR(__CPROVER_old(self->offset), size, self->length) && __CPROVER_old(self->offset) < self->length))
 E02(verif_exc != 0 ==> self->offset == __CPROVER_old(self->offset))
 E02(__CPROVER_old(self->offset) <= self->length ==> self->offset <= self->length)
